@@ -103,6 +103,8 @@ pub struct Rep {
     pub notes: BTreeMap<String, Value>,
     cur: Option<Case>,
     cur_nontrivial: bool,
+    /// domain tag prepended to the relation part of violation keys of the current case
+    pub key_prefix: String,
 }
 
 impl Rep {
@@ -113,6 +115,7 @@ impl Rep {
     pub fn begin(&mut self, c: &Case) {
         self.cur = Some(c.clone());
         self.cur_nontrivial = false;
+        self.key_prefix.clear();
         self.evaluations += 1;
         *self.ops.entry(c.op.clone()).or_insert(0) += 1;
     }
@@ -147,7 +150,7 @@ impl Rep {
     /// Record a violation for the current case.  `rel` names the relation that failed.
     pub fn fail(&mut self, rel: &str, detail: String) {
         let case = self.cur.clone().unwrap_or_default();
-        let key = format!("{}|{}", case.op, rel);
+        let key = format!("{}|{}{}", case.op, self.key_prefix, rel);
         let n = self.viol_counts.entry(key.clone()).or_insert(0);
         *n += 1;
         if (*n as usize) <= MAX_VIOL_PER_KEY {
